@@ -132,7 +132,7 @@ def gen(prop, oracle, tier):
     quick = tier == "quick"
     out = []
     big = 900 if quick else 3000
-    sts = [NONE, FIREABLE, RUNNING, COMPLETED, RECOVERY, ROLLBACK]
+    sts = [NONE, FIREABLE, RUNNING, COMPLETED, ROLLBACK] if quick else [NONE, FIREABLE, RUNNING, COMPLETED, RECOVERY, ROLLBACK]
     pairs = [(a, b) for a in sts for b in sts if a <= b]
     ncodes2 = 2 * len(OPS)
     two = [("d",), ("d",)]
@@ -162,7 +162,7 @@ def gen(prop, oracle, tier):
             out.append(_spec(prop, oracle, "one", 1, pr, 1, [("d",)] * 3, dims="cmd", cond=big))
     # (4) other topologies
     heavy = [(RUNNING, NONE), (FIREABLE, NONE), (RUNNING, RUNNING), (ROLLBACK, NONE), (COMPLETED, NONE), (NONE, NONE), (NONE, RUNNING), (RUNNING, FIREABLE)]
-    for pr in heavy[:6] if quick else heavy:
+    for pr in heavy[:4] if quick else heavy:
         for Lx in (1,) if (quick or pr != heavy[0]) else (1, 2):
             d = "c" if (Lx == 2 or (quick and NONE not in pr)) else "cd"
             out.append(_spec(prop, oracle, "two", 2, pr, Lx, two, dims=d, cond=big, usage_sym=False))
@@ -172,7 +172,7 @@ def gen(prop, oracle, tier):
             out.append(_spec(prop, oracle, "stacked", 2, pr, Lx, [("b",), ("w",)], dims=d, cond=big, usage_sym=False, tagname="_bw"))
             out.append(_spec(prop, oracle, "stacked", 2, pr, Lx, [("w",), ("w",)], dims=d, cond=big, usage_sym=False, tagname="_ww"))
             out.append(_spec(prop, oracle, "two_deployments", 2, pr, Lx, [("x", "y"), ("x", "y")], dims=d, cond=big, usage_sym=False))
-            if Lx == 1 and pr in heavy[:4]:
+            if Lx == 1 and pr in (heavy[:2] if quick else heavy[:4]):
                 out.append(_spec(prop, oracle, "stacked3", 3, pr, Lx, [("v",), ("v",)], dims="c", cond=big, usage_sym=False, tagname="_vv"))
                 out.append(_spec(prop, oracle, "stacked3", 3, pr, Lx, [("v",), ("b",)], dims="c", cond=big, usage_sym=False, tagname="_vb"))
     return out
